@@ -210,12 +210,20 @@ func evalPF(pf PF, c Card) Set {
 	if pf.IND {
 		return F
 	}
-	// several instances: "first instance" and "some instance" readings are both
-	// tolerated; the union of the per-instance verdicts is permitted.
-	var r Set
+	// several instances: two readings are tolerated and nothing else - "the first instance decides" (the library)
+	// and "some instance satisfies the filter" (RFC 6352 section 10.5.1).  Picking another single instance - the
+	// last, the preferred one - is neither (tightened after seeded change C07-s7; the union of all per-instance
+	// verdicts used to be accepted).
+	r := evalPFInstance(pf, vals[0])
+	some := F
 	for _, v := range vals {
-		r |= evalPFInstance(pf, v)
+		x := evalPFInstance(pf, v)
+		if x.Has(T) {
+			some = T
+		}
+		r |= x & Err
 	}
+	r |= some
 	if len(pf.Params) > 0 {
 		// parameter filters are outside the statement: don't care
 		r |= T | F
